@@ -59,8 +59,10 @@ class DefaultObjectLoader(ObjectLoader):
 
     def identify_object(self, obj: Any) -> str:
         identifier = f'{obj.__module__}:{obj.__name__}'
-        # Make sure we can load the object
-        self.load_object(identifier)
+        # Make sure we can load the object, and that it is this object that is found under that name (not, e.g., a module
+        # level class of the same name as a class made at run time)
+        if self.load_object(identifier) is not obj:
+            raise ValueError(f"object '{obj}' cannot be identified: `{identifier}` is a different object")
         return identifier
 
 
